@@ -6,6 +6,7 @@ import (
 	"bytes"
 	"encoding/xml"
 	"io"
+	"reflect"
 	"strings"
 	"testing"
 
@@ -132,13 +133,32 @@ func tokenizes(b []byte) error {
 
 func hasSpecial(s string) bool { return strings.ContainsAny(s, "&<>\"'") }
 
-func (c CaseC05) encode() ([]byte, error) {
+// values builds the Map and the MapSeq of clauses a and c.
+func (c CaseC05) values() (mxj.Map, mxj.MapSeq) {
 	m := mxj.Map{"r": map[string]interface{}{"-a": c.Attr, "e": c.Text, "m": map[string]interface{}{"#text": c.Mixed, "c": "x"}}}
 	ms := mxj.MapSeq{"r": map[string]interface{}{
 		"#attr": map[string]interface{}{"a": map[string]interface{}{"#text": c.Attr, "#seq": 0}},
 		"e":     map[string]interface{}{"#text": c.Text, "#seq": 0},
 		"m":     map[string]interface{}{"#seq": 1, "#text": c.Mixed, "c": map[string]interface{}{"#text": "x", "#seq": 0}},
 	}}
+	return m, ms
+}
+
+// c05vals holds the values of the case being checked: every encode() of one case encodes the SAME Map / MapSeq object,
+// as a caller does who encodes a value twice (an encoder that rewrites its receiver shows on the second call).
+var c05vals struct {
+	key string
+	m   mxj.Map
+	ms  mxj.MapSeq
+}
+
+func (c CaseC05) encode() ([]byte, error) {
+	key := c.Clause + "\x00" + c.Attr + "\x00" + c.Text + "\x00" + c.Mixed
+	if c05vals.key != key || c05vals.m == nil {
+		c05vals.key = key
+		c05vals.m, c05vals.ms = c.values()
+	}
+	m, ms := c05vals.m, c05vals.ms
 	switch c.Enc {
 	case 0:
 		return m.Xml()
@@ -152,6 +172,10 @@ func (c CaseC05) encode() ([]byte, error) {
 
 func checkC05(c CaseC05, info *Info) *Failure {
 	defer resetOptions()
+	c05vals.key, c05vals.m, c05vals.ms = "", nil, nil
+	defer func() {
+		c05vals.key, c05vals.m, c05vals.ms = "", nil, nil
+	}()
 	info.Class("clause " + c.Clause)
 	switch c.Clause {
 	case "a":
@@ -169,7 +193,10 @@ func checkC05(c CaseC05, info *Info) *Failure {
 			return failf("result-overwritten-by-later-call", "enc %d: the encoder's result changed when other values were encoded afterwards", c.Enc)
 		}
 		if err2 != nil || !bytes.Equal(x, x2) {
-			return failf("validity-check-changes-output", "enc %d: with check %q,%v without %q", c.Enc, x2, err2, x)
+			return failf("validity-check-changes-output", "enc %d: second encoding of the same value (validity check on) %q,%v; first %q", c.Enc, x2, err2, x)
+		}
+		if fm, fms := c.values(); !reflect.DeepEqual(map[string]interface{}(fm), map[string]interface{}(c05vals.m)) || !reflect.DeepEqual(map[string]interface{}(fms), map[string]interface{}(c05vals.ms)) {
+			return failf("receiver-modified", "enc %d: encoding changed the value it encodes: %#v / %#v", c.Enc, c05vals.m, c05vals.ms)
 		}
 		if werr := wellFormedSingleRoot(x); werr != nil {
 			return failf("not-well-formed", "enc %d: %q: %v", c.Enc, x, werr)
